@@ -28,6 +28,12 @@ var faultqStatements = []string{
 	"select key, count(1) as c where key ^= 'k' group by key limit 2, 2",
 	"select key, count(1) as c where key ^= 'k' group by key order by c desc, key limit 1, 3",
 	"select count(1), max(int(value)) where key > 'k02'",
+	// ORDER BY over a scan that has to Seek to the start of a pinned region: the Init-time Seek (of the
+	// plan's own Init and of BuildPlan's) is one of the fault positions
+	"select key, value where key between 'k02' and 'k05' order by value desc",
+	"select key, int(value) as n where key >= 'k03' & key <= 'k06' order by n, key desc limit 1, 3",
+	"select key, count(1) as c where key > 'k01' group by key order by c desc, key desc",
+	"select key, value where key < 'k04' order by value",
 	"select * where key in ('k01', 'k03', 'zz', 'k05') limit 1, 2",
 	"select * where key in ('k01', 'k03', 'k05') & value != '3'",
 	"select * where key between 'k02' and 'k04' | key = 'k06'",
